@@ -455,9 +455,16 @@ impl ExpectedError {
         let trimmed_err = actual_err.trim();
         let err_is_multiline = trimmed_err.lines().next_tuple::<(_, _)>().is_some();
 
+        // An inline message is split into tokens and joined by single blanks when the file is
+        // parsed again, and exactly `retry <n> backoff <d>` would be taken for a retry clause.
+        let escaped = regex::escape(actual_err);
+        let tokens: Vec<&str> = escaped.split_whitespace().collect();
+        let inline_fits = tokens.join(" ") == escaped
+            && !(tokens.len() == 4 && tokens[0] == "retry" && tokens[2] == "backoff");
+
         let multiline = match reference {
             Some(Self::Multiline(_)) => true, // always multiline if the ref is multiline
-            _ => err_is_multiline,            // prefer inline as long as it fits
+            _ => err_is_multiline || !inline_fits, // prefer inline as long as it fits
         };
 
         if multiline {
@@ -465,7 +472,7 @@ impl ExpectedError {
             // an exact empty error is expected, instead of any error by `Empty`.
             Self::Multiline(trimmed_err.to_string())
         } else {
-            Self::new_inline(regex::escape(actual_err)).expect("escaped regex should be valid")
+            Self::new_inline(escaped).expect("escaped regex should be valid")
         }
     }
 }
